@@ -21,7 +21,7 @@ from mc.models import ini, legacy
 ID = "C05"
 LEVEL = "model_checking"
 VERSIONS = {"ci": ["0.0", "0.2", "0.3", "0.4", "0.9", "1.0", "1.1"], "im": ["1.0", "1.1"], "rpms": ["0.3", "1.0", "1.1"],
-            "ti": ["0.0", "0.3", "1.0", "1.1"]}
+            "ti": ["0.0", "0.0r", "0.3", "1.0", "1.1"]}          # 0.0r: pre-productmd file whose repository is spelled <dir>/repodata
 REQUIRED_OUTCOMES = (["ci:%s:upgraded" % v for v in VERSIONS["ci"]] + ["im:%s:upgraded" % v for v in VERSIONS["im"]] +
                      ["rpms:%s:upgraded" % v for v in VERSIONS["rpms"]] + ["ti:%s:upgraded" % v for v in VERSIONS["ti"]] +
                      ["fixture:treeinfo:upgraded", "fixture:images:upgraded", "fixture:composeinfo:upgraded",
@@ -138,8 +138,8 @@ HACK_NAMES = ("Red Hat Enterprise Linux", "Subscription Asset Manager", "Red Hat
 
 def make_ti(spec, version):
     from mc.checks.c07 import render
-    if version == "0.0":
-        return make_ti_00(spec)
+    if version in ("0.0", "0.0r"):
+        return make_ti_00(spec, repodata=version == "0.0r")
     text = TI.dumps(TI.build(spec))
     old, _ = legacy.treeinfo(ini.parse(text), version)
     if legacy.vt(version) <= (0, 3) and spec["tree"]["arch"] == "src":
@@ -152,7 +152,7 @@ def make_ti(spec, version):
     return render(old), TI.expected_observation(spec)
 
 
-def make_ti_00(spec):
+def make_ti_00(spec, repodata=False):
     """A pre-productmd tree: only the compatibility section and the image / stage2 / checksum sections, bare digests,
     media numbers in [general].  Only shapes that format can express: one childless top-level variant without a dash, plain
     paths of the main kinds, names without per-product hacks."""
@@ -179,6 +179,8 @@ def make_ti_00(spec):
     for sec, opts in doc:
         opts = [(k, val) for k, val in opts if not k.startswith(";")]
         if sec == "general":
+            if repodata:
+                opts = [(k, (val.rstrip("/") + "/repodata") if k == "repository" else val) for k, val in opts]
             if spec["media"]:
                 opts += [("discnum", str(spec["media"]["discnum"])), ("totaldiscs", str(spec["media"]["totaldiscs"]))]
             out.append((sec, opts))
@@ -324,7 +326,7 @@ def run_unit(unit, acc):
                         acc.outcome("ci:id-only-compose")
                     if fmt == "im" and any(s["arch"] == "src" for s in spec["images"]):
                         acc.outcome("im:src-arch-layout")
-                    if fmt == "ti" and legacy.vt(version) <= (0, 3) and spec["tree"]["arch"] == "src":
+                    if fmt == "ti" and version[:3] in ("0.0", "0.3") and spec["tree"]["arch"] == "src":
                         acc.outcome("ti:legacy-source-tree")
             if last is not None and last[0] in ("addvar", "alias", "image"):
                 acc.sample({"format": fmt, "seed": trace[0], "edits": trace[1:], "versions": VERSIONS[fmt]}, limit=3)
